@@ -434,7 +434,8 @@ class BaseFeatureWriter:
 
         # Then, add explicitly declared languagesystems on top.
         feaScripts = ast.getScriptLanguageSystems(feaFile)
-        single_scripts.update(feaScripts.keys())
+        # (a declared tag that belongs to no Unicode script -- 'musc' -- maps to None)
+        single_scripts.update(sc for sc in feaScripts.keys() if sc is not None)
 
         return single_scripts
 
